@@ -559,31 +559,6 @@ fn gen_layered(n: usize, r: &mut Rng) -> Vec<(u32, u32)> {
 }
 
 // ---------- manager histories ----------
-const KNOWN_REMOVE: &str = "remove-property-not-propagated";
-
-/// The stored witness of the known finding, replayed on the implementation every run:
-/// REMOVE of the declared measure property (GraphStore::remove_node_property) does not reach the
-/// hierarchy manager, so a usable index keeps answering with the removed value.
-fn replay_known_remove() -> KnownReplay {
-    let mut store = GraphStore::new();
-    let a = store.create_node("T");
-    let b = store.create_node("T");
-    store.create_edge(b, a, "IS_A").unwrap();
-    store.set_column_property(b, "units", PropertyValue::Integer(5));
-    let mgr = Arc::clone(&store.hierarchy_index);
-    mgr.create(&store, HierarchySpec::new("h", vec![EdgeType::new("IS_A")]).with_measure(None, "units", vec![RollupOp::Sum]))
-        .expect("create");
-    store.remove_node_property(b, "units");
-    let usable = mgr.usable_for_edge_type(&EdgeType::new("IS_A")).is_some();
-    let got = mgr.get("h").unwrap().read().unwrap().index.as_ref().and_then(|ix| ix.rollup_id(a, RollupOp::Sum));
-    let still = usable && got != Some(RollupValue::Int(0));
-    KnownReplay {
-        class: KNOWN_REMOVE.to_string(),
-        still_fails: still,
-        detail: format!("nodes a,b; b-[:IS_A]->a; b.units=5; index(sum units); remove_node_property(b,units): usable={usable}, rollup(a,sum)={got:?}, brute force Int(0)"),
-    }
-}
-
 fn run_mgr(out: &mut Out, seed: u64, c: u64, thorough: bool) {
     let idx_no = out.next_index();
     if !out.wants(idx_no) {
@@ -595,7 +570,7 @@ fn run_mgr(out: &mut Out, seed: u64, c: u64, thorough: bool) {
     let mut store = GraphStore::new();
     // a third of the histories restrict the measure to label M; the other nodes carry T only
     let restricted = c % 3 == 1;
-    let has_m: Vec<bool> = (0..n).map(|_| !restricted || r.chance(2, 3)).collect();
+    let mut has_m: Vec<bool> = (0..n).map(|_| !restricted || r.chance(2, 3)).collect();
     let ids: Vec<NodeId> = (0..n).map(|i| store.create_node(if restricted && has_m[i] { "M" } else { "T" })).collect();
     let cover = EdgeType::new("IS_A");
     let shape = r.below(3);
@@ -633,26 +608,25 @@ fn run_mgr(out: &mut Out, seed: u64, c: u64, thorough: bool) {
     let snapshot_meas = |meas: &BTreeMap<u32, i64>| -> String {
         g_list(meas.iter().map(|(k, v)| format!("({}, Some {})", id_of(*k), g_z(*v as i128))))
     };
-    let g_elig = if restricted {
-        format!("(Some {})", g_list((0..n as u32).filter(|i| has_m[*i as usize]).map(|i| format!("{}", id_of(i)))))
-    } else {
-        "None".to_string()
+    let g_elig_of = |has_m: &Vec<bool>| -> String {
+        if restricted {
+            format!("(Some {})", g_list((0..n as u32).filter(|i| has_m[*i as usize]).map(|i| format!("{}", id_of(i)))))
+        } else {
+            "None".to_string()
+        }
     };
+    let g_elig = g_elig_of(&has_m);
     let g_edges0 = snapshot_edges(&store);
     let g_meas0 = snapshot_meas(&meas);
     let mut human = format!("mgr n={n} edges={:?} measure={:?} label-restricted={restricted} has_label={:?}", e0, meas, has_m);
     let mut bad: Option<String> = None;
-    let mut known_bad: Option<String> = None;
     let mut must_be_unusable = false;
     let mut saw_stale_then_rebuilt = false;
-    // values removed with REMOVE that the index (known finding) still holds: node -> stale value
-    let mut removed_pending: BTreeMap<u32, i64> = BTreeMap::new();
     let mut observe = |alive: &Vec<(EdgeId, u32, u32)>,
                        meas: &BTreeMap<u32, i64>,
-                       removed_pending: &BTreeMap<u32, i64>,
+                       has_m: &Vec<bool>,
                        must_be_unusable: bool,
                        bad: &mut Option<String>,
-                       known_bad: &mut Option<String>,
                        what: &str|
      -> String {
         let usable = mgr.usable_for_edge_type(&cover).is_some();
@@ -664,8 +638,6 @@ fn run_mgr(out: &mut Out, seed: u64, c: u64, thorough: bool) {
         let in_h: BTreeSet<u32> = edges.iter().flat_map(|&(c, p)| [c, p]).collect();
         // the measure the property talks about: the current value of nodes carrying the label
         let m: Vec<Option<i64>> = (0..n as u32).map(|i| if has_m[i as usize] { meas.get(&i).copied() } else { None }).collect();
-        // the same with the values the known finding leaves behind
-        let m_known: Vec<Option<i64>> = (0..n as u32).map(|i| removed_pending.get(&i).copied().or(m[i as usize])).collect();
         if must_be_unusable && usable && bad.is_none() {
             *bad = Some(format!("after {what}: index usable although the covering relation was written and not rebuilt"));
         }
@@ -676,26 +648,35 @@ fn run_mgr(out: &mut Out, seed: u64, c: u64, thorough: bool) {
                 if usable && bad.is_none() {
                     let want = if in_h.contains(&i) { Some(brute.rollup(i as usize, &m, *op)) } else { None };
                     if got != want {
-                        let want_known = if in_h.contains(&i) { Some(brute.rollup(i as usize, &m_known, *op)) } else { None };
-                        let msg = format!("after {what}: usable index answers rollup({i},{op:?}) = {got:?}, brute force on the current graph {want:?}");
-                        if !removed_pending.is_empty() && got == want_known {
-                            if known_bad.is_none() {
-                                *known_bad = Some(msg);
-                            }
-                        } else {
-                            *bad = Some(msg);
-                        }
+                        *bad = Some(format!("after {what}: usable index answers rollup({i},{op:?}) = {got:?}, brute force on the current graph {want:?}"));
                     }
                 }
             }
         }
         format!("({}, {})", g_bool(usable), g_list(rolls))
     };
-    let o0 = observe(&alive, &meas, &removed_pending, false, &mut bad, &mut known_bad, "create");
+    let o0 = observe(&alive, &meas, &has_m, false, &mut bad, "create");
     let mut hist: Vec<String> = Vec::new();
     let steps = r.range(3, if thorough { 16 } else { 9 });
     for _ in 0..steps {
-        let (h, what): (String, String) = match r.below(12) {
+        let (h, what): (String, String) = match r.below(14) {
+            12 | 13 => {
+                // SET n:Label / REMOVE n:Label — the measure label (restricted histories) or another one
+                let a = r.below(n as u64) as usize;
+                let measure_label = restricted && r.chance(3, 4);
+                let lab = if measure_label { "M" } else { "X" };
+                let add = if measure_label { !has_m[a] } else { r.chance(1, 2) };
+                if add {
+                    store.add_label_to_node("default", ids[a], lab).unwrap();
+                } else {
+                    store.remove_label_from_node(ids[a], &samyama::graph::Label::new(lab)).unwrap();
+                }
+                if measure_label {
+                    has_m[a] = add;
+                    out.count("mgr_measure_label_writes");
+                }
+                (format!("HLabelWrite {}", g_bool(measure_label)), format!("{} label {lab} on {a}", if add { "add" } else { "remove" }))
+            }
             0 | 1 => {
                 // new covering edge child > parent in the hidden order keeps the relation acyclic
                 let ch = r.range(1, n as u64 - 1) as u32;
@@ -742,7 +723,6 @@ fn run_mgr(out: &mut Out, seed: u64, c: u64, thorough: bool) {
                         meas.remove(&a);
                     }
                 }
-                removed_pending.remove(&a);
                 (format!("HPropWrite true {} {}", id_of(a), g_ov(&v)), format!("set units on {a} to {v:?}"))
             }
             8 => {
@@ -753,11 +733,7 @@ fn run_mgr(out: &mut Out, seed: u64, c: u64, thorough: bool) {
                     (format!("HPropRemove false {}", id_of(a)), format!("remove colour on {a}"))
                 } else {
                     store.remove_node_property(ids[a as usize], "units");
-                    if let Some(v) = meas.remove(&a) {
-                        if has_m[a as usize] && !removed_pending.contains_key(&a) {
-                            removed_pending.insert(a, v);
-                        }
-                    }
+                    meas.remove(&a);
                     out.count("mgr_measure_removed");
                     (format!("HPropRemove true {}", id_of(a)), format!("remove units on {a}"))
                 }
@@ -768,12 +744,11 @@ fn run_mgr(out: &mut Out, seed: u64, c: u64, thorough: bool) {
                     saw_stale_then_rebuilt = true;
                 }
                 must_be_unusable = false;
-                removed_pending.clear();
-                (format!("HRebuild {} {} {}", snapshot_edges(&store), g_elig, snapshot_meas(&meas)), "rebuild".into())
+                (format!("HRebuild {} {} {}", snapshot_edges(&store), g_elig_of(&has_m), snapshot_meas(&meas)), "rebuild".into())
             }
         };
         human.push_str(&format!("; {what}"));
-        let o = observe(&alive, &meas, &removed_pending, must_be_unusable, &mut bad, &mut known_bad, &what);
+        let o = observe(&alive, &meas, &has_m, must_be_unusable, &mut bad, &what);
         hist.push(format!("({}, {})", h, o));
     }
     out.count("mgr_histories");
@@ -795,13 +770,11 @@ fn run_mgr(out: &mut Out, seed: u64, c: u64, thorough: bool) {
     let i = out.case(g, human.clone(), true);
     if let Some(b) = bad {
         out.fail(i, &human, &b, None);
-    } else if let Some(b) = known_bad {
-        out.count("known_remove_cases");
-        out.fail(i, &human, &b, Some(KNOWN_REMOVE));
     }
 }
 
 // ---------- Cypher layer: the same queries with and without the hierarchy index ----------
+const KNOWN_LABEL: &str = "rewrite-ignores-measure-label";
 
 fn canon_rows(engine: &samyama::query::QueryEngine, store: &GraphStore, q: &str) -> String {
     match engine.execute(q, store) {
@@ -830,6 +803,30 @@ fn canon_rows(engine: &samyama::query::QueryEngine, store: &GraphStore, q: &str)
     }
 }
 
+/// The stored witness of the known finding, replayed on the implementation every run.
+fn replay_known_label() -> KnownReplay {
+    let engine = samyama::query::QueryEngine::new();
+    let mut with = GraphStore::new();
+    let mut without = GraphStore::new();
+    for q in [
+        "CREATE (:C:M {code: 'a', units: 5})",
+        "CREATE (:C {code: 'b', units: 7})",
+        "MATCH (x:C {code: 'b'}), (y:C {code: 'a'}) CREATE (x)-[:IS_A]->(y)",
+    ] {
+        let _ = engine.execute_mut(q, &mut with, "default");
+        let _ = engine.execute_mut(q, &mut without, "default");
+    }
+    let _ = engine.execute_mut("CREATE HIERARCHY INDEX h ON ()-[:IS_A]->() MEASURE M.units AGGREGATE sum", &mut with, "default");
+    let q = "MATCH (d)-[:IS_A*0..]->(r:C {code: 'a'}) RETURN sum(d.units) AS v";
+    let a = canon_rows(&engine, &with, q);
+    let b = canon_rows(&engine, &without, q);
+    KnownReplay {
+        class: KNOWN_LABEL.to_string(),
+        still_fails: a != b,
+        detail: format!("(a:C:M units 5) <-IS_A- (b:C units 7); index MEASURE M.units; `{q}`: with the index [{a}], by expansion [{b}]"),
+    }
+}
+
 /// Two stores receive the same Cypher writes; one has `CREATE HIERARCHY INDEX`, the other answers the
 /// same `*0..` queries by variable-length expansion. Their rows must be equal after every step
 /// (and, where the index is usable, the planner's rewrite is what answers on the indexed side).
@@ -851,12 +848,17 @@ fn run_cypher(out: &mut Out, seed: u64, c: u64) {
     let mut without = GraphStore::new();
     let mut human = format!("cypher n={n} edges={:?}", edges);
     let mut script: Vec<String> = Vec::new();
+    let restricted = c % 4 == 3;
     for i in 0..n {
+        let labels = if restricted && r.chance(2, 3) { ":C:M" } else { ":C" };
         let q = match rand_val(&mut r).map(|v| v % 1000) {
-            Some(v) => format!("CREATE (:C {{code: 'n{i}', units: {v}}})"),
-            None => format!("CREATE (:C {{code: 'n{i}'}})"),
+            Some(v) => format!("CREATE ({labels} {{code: 'n{i}', units: {v}}})"),
+            None => format!("CREATE ({labels} {{code: 'n{i}'}})"),
         };
         script.push(q);
+    }
+    if restricted {
+        out.count("cypher_label_restricted");
     }
     for &(ch, p) in &edges {
         script.push(format!("MATCH (a:C {{code: 'n{ch}'}}), (b:C {{code: 'n{p}'}}) CREATE (a)-[:IS_A]->(b)"));
@@ -874,7 +876,7 @@ fn run_cypher(out: &mut Out, seed: u64, c: u64) {
         apply(q, &mut with, &mut without, &mut bad);
     }
     let aggs = if r.chance(1, 2) { "sum, min, max, count" } else { "sum, count" };
-    let create = format!("CREATE HIERARCHY INDEX h ON ()-[:IS_A]->() MEASURE units AGGREGATE {aggs}");
+    let create = format!("CREATE HIERARCHY INDEX h ON ()-[:IS_A]->() MEASURE {}units AGGREGATE {aggs}", if restricted { "M." } else { "" });
     if let Err(e) = engine.execute_mut(&create, &mut with, "default") {
         bad = Some(format!("{create}: {e}"));
     }
@@ -890,7 +892,7 @@ fn run_cypher(out: &mut Out, seed: u64, c: u64) {
             format!("MATCH (r:C {{code: 'n{root}'}})<-[:IS_A*0..]-(d) RETURN sum(d.units) AS v"),
         ]
     };
-    let mut compare = |with: &GraphStore, without: &GraphStore, what: &str, removed_pending: bool, bad: &mut Option<String>, known_bad: &mut Option<String>, out: &mut Out| {
+    let mut compare = |with: &GraphStore, without: &GraphStore, what: &str, bad: &mut Option<String>, known_bad: &mut Option<String>, out: &mut Out| {
         for root in 0..n {
             for q in queries(root) {
                 let fired = samyama::query::parse_query(&q)
@@ -905,7 +907,9 @@ fn run_cypher(out: &mut Out, seed: u64, c: u64) {
                 out.count("cypher_comparisons");
                 if a != b {
                     let msg = format!("after {what}: `{q}` with the index (rewrite fired: {fired}) = [{a}], by variable-length expansion = [{b}]");
-                    if removed_pending {
+                    // known finding: the detector rewrites sum/min/max(d.units) onto an index whose measure is
+                    // restricted to a label, although the query aggregates over every descendant
+                    if restricted && fired && !q.contains("count(") && !q.contains("d.code") {
                         if known_bad.is_none() {
                             *known_bad = Some(msg);
                         }
@@ -916,16 +920,22 @@ fn run_cypher(out: &mut Out, seed: u64, c: u64) {
             }
         }
     };
-    compare(&with, &without, "create index", false, &mut bad, &mut known_bad, out);
-    // a REMOVE of the measure property not yet followed by a rebuild (known finding)
-    let mut removed_pending = false;
+    compare(&with, &without, "create index", &mut bad, &mut known_bad, out);
     let steps = r.range(2, 5);
     for _ in 0..steps {
-        let q = match r.below(7) {
+        let q = match r.below(8) {
             6 => {
                 let k = r.below(n as u64);
-                removed_pending = true;
                 format!("MATCH (x:C {{code: 'n{k}'}}) REMOVE x.units")
+            }
+            7 => {
+                let k = r.below(n as u64);
+                let lab = if restricted && r.chance(3, 4) { "M" } else { "X" };
+                if r.chance(1, 2) {
+                    format!("MATCH (x:C {{code: 'n{k}'}}) SET x:{lab}")
+                } else {
+                    format!("MATCH (x:C {{code: 'n{k}'}}) REMOVE x:{lab}")
+                }
             }
             0 | 1 | 2 => {
                 let k = r.below(n as u64);
@@ -947,7 +957,6 @@ fn run_cypher(out: &mut Out, seed: u64, c: u64) {
         };
         human.push_str(&format!("; {q}"));
         if q.starts_with("REBUILD") {
-            removed_pending = false;
             if let Err(e) = engine.execute_mut(&q, &mut with, "default") {
                 if bad.is_none() {
                     bad = Some(format!("{q}: {e}"));
@@ -956,15 +965,15 @@ fn run_cypher(out: &mut Out, seed: u64, c: u64) {
         } else {
             apply(&q, &mut with, &mut without, &mut bad);
         }
-        compare(&with, &without, &q, removed_pending, &mut bad, &mut known_bad, out);
+        compare(&with, &without, &q, &mut bad, &mut known_bad, out);
     }
     out.count("cypher_histories");
     let i = out.case("CDirect 1 [] 0 (BOk 0) []".to_string(), human.clone(), true);
     if let Some(b) = bad {
         out.fail(i, &human, &b, None);
     } else if let Some(b) = known_bad {
-        out.count("known_remove_cases");
-        out.fail(i, &human, &b, Some(KNOWN_REMOVE));
+        out.count("known_label_rewrite_cases");
+        out.fail(i, &human, &b, Some(KNOWN_LABEL));
     }
 }
 
@@ -1080,6 +1089,6 @@ fn main() {
     for k in 0..nc {
         run_cypher(&mut out, seed, k);
     }
-    out.known.push(replay_known_remove());
+    out.known.push(replay_known_label());
     out.finish();
 }
